@@ -18,7 +18,8 @@ THEOREMS = [
     'Pfst.C15.no_double', 'Pfst.C15.terminates', 'Pfst.C15.replaced_children_next', 'Pfst.C15.removed_continues',
     'Pfst.C15.send_honoured', 'Pfst.C15.checks_sound', 'Pfst.C15.concrete_init_inv', 'Pfst.C15.init_inv',
     'Pfst.C15.dead_skipped', 'Pfst.C15.alloc_bound', 'Pfst.C15.apply_bound', 'Pfst.C15.yield_alive_leave_both', 'Pfst.C15.leave_rewalk_children',
-    'Pfst.C15.both_rewalk_reenters', 'Pfst.C15.leave_rewalk_removed', 'Pfst.C15.root_rewalk_new_children_false',
+    'Pfst.C15.both_rewalk_reenters', 'Pfst.C15.leave_rewalk_removed', 'Pfst.C15.root_rewalk_children', 'Pfst.C15.root_rewalk_both',
+    'Pfst.C15.root_rewalk_new_children',
 ]
 RULE = ('(a) nested-list programs (every ordered tree shape with <= 7 List/Name nodes): scripted consumers "at yield k do '
         'action A on target T" with A in {replace by leaf / by [x, y] / by [[x], y], remove} x optional send(False|True), '
@@ -266,7 +267,8 @@ def _pending():
         return set()
     mine = set()
     for e in json.loads(f.read_text()):
-        mine.update(e.get('signatures') or [e.get('signature')])
+        if e.get('kind', 'known') == 'known':
+            mine.update(e.get('signatures') or [e.get('signature')])
     listed = set()
     for e in framework.load_known(ID):
         listed.update(e.get('signatures') or [e.get('signature')])
@@ -601,8 +603,30 @@ LIST_PROGS = ['[[a, b], [c, [d, e]], f]', 'x = [a, [b, c], d]\ny = [[e], f(g, [h
               '[pre_grand, [pre_parent, [self], post_parent], post_grand]', 'v = [a, (b, [c, d]), {e: [f]}]']
 
 
+SCOPE_SRCS = ['def f():\n    return [i for i in e if i]\n', 'def f(a=d):\n    x = {k: v for k, v in m.items()}\n    return (j for j in [p, q])\n',
+              'class C:\n    y = [u for u in (v for v in w)]\n']
+
+
+def scope_cases():
+    """oracle only (scope is not modelled): replace / send(True) on every yield of a scope walk over comprehensions"""
+    out = []
+    for src in SCOPE_SRCS:
+        for back in (False, True):
+            for k in range(14):
+                for acts in ([['replace', 'cur', '[zz, yy]'], ['send', True]], [['replace', 'cur', 'zz.ww(yy)'], ['send', True]],
+                             [['send', True]], [['replace', 'cur', '[zz, yy]']], [['remove', 'cur']]):
+                    out.append(dict(on='enter', back=back, recurse=True, self_=True, scope=True, src=src, wroot=[0],
+                                    script=[[k, acts]], all='F', mode='exec'))
+    return out
+
+
 def sweep(ctx):
     q = ctx.quick
+    sc = scope_cases()
+    for c, r in zip(sc, pmap(_run, sc)):
+        ctx.tally('scope_end', r.get('end'))
+        ctx.count([c['src'], c['back'], c['script'], 'scope'], r.get('n_mut', 0) > 0)
+        report_viol(ctx, c, r, 'scope walk')
     # corpus programs: oracle + correspondence through observed trees
     cases = prog_cases(ctx, 60 if q else 500, 5 if q else 14, 4 if q else 40)
     run_compare(ctx, 'walk(corpus programs, observed mutations) vs Pfst.WalkMut machines', cases, False, 'corpus program',
@@ -650,7 +674,8 @@ def replay(ctx, data):
         return
     if 'case' in w:
         r = _run(w['case'])
-        print('yields:', r.get('yields'), 'end:', r.get('end'), 'final:', r.get('final_src'))
+        if r.get('viol') or r.get('end') != 'done':
+            print('yields:', r.get('yields'), 'end:', r.get('end'), 'final:', r.get('final_src'))
         for cls, detail, last in r.get('viol', []):
             ctx.fail('replay', f'{cls}: {detail}', w)
     elif w.get('consumer') in ('search', 'sub'):
